@@ -795,6 +795,48 @@ func mergeValue(c *Term, a, b Value) Value {
 
 func normChoice(alts []Alt) Value {
 	var out []Alt
+	// fast path: integer alternatives are grouped through a map
+	allInt := true
+	for _, a := range alts {
+		if _, ok := a.v.(int64); !ok {
+			allInt = false
+			break
+		}
+	}
+	if allInt && len(alts) > 4 {
+		idx := map[int64]int{}
+		groups := [][]*Term{}
+		vals := []int64{}
+		for _, a := range alts {
+			if a.g == tFalse {
+				continue
+			}
+			v := a.v.(int64)
+			k, ok := idx[v]
+			if !ok {
+				k = len(vals)
+				idx[v] = k
+				vals = append(vals, v)
+				groups = append(groups, nil)
+			}
+			groups[k] = append(groups[k], a.g)
+		}
+		for k, v := range vals {
+			out = append(out, Alt{Or(groups[k]...), v})
+		}
+		if len(out) == 0 {
+			panic(engineError{"empty choice"})
+		}
+		if len(out) == 1 {
+			return out[0].v
+		}
+		for _, a := range out {
+			if a.g == tTrue {
+				return a.v
+			}
+		}
+		return &Choice{alts: out}
+	}
 	for _, a := range alts {
 		if a.g == tFalse {
 			continue
